@@ -45,10 +45,10 @@ def fieldLinked (ds : DescSet) (f : FieldD) : Bool :=
     | none => false
   | _ => targetLinked ds f.kind f.target
 
-/-- the set is linked (trusted: protodesc / protoregistry): field types resolve, enums are not
+/-- the core of `linked` (trusted: protodesc / protoregistry): field types resolve, enums are not
 empty, the listed top-level names exist, and full names are unique across kinds (no message and no
 oneof has the full name of an enum) -/
-def linked (ds : DescSet) : Bool :=
+def linkedBase (ds : DescSet) : Bool :=
   (ds.msgs.all fun m => m.fields.all (fieldLinked ds)) &&
   (ds.topMsgs.all fun full => (ds.msg? full).isSome) &&
   (ds.allMsgs.all fun full => (ds.msg? full).isSome) &&
@@ -380,9 +380,9 @@ theorem srcIsEnum_of_mem (ds : DescSet) (en : EnumD) (h : en ∈ ds.enums) :
   simp only [List.any_eq_true, beq_iff_eq]
   exact ⟨en, h, rfl⟩
 
-theorem linked_names (ds : DescSet) (hl : linked ds = true) (m : Msg) (hm : m ∈ ds.msgs) :
+theorem linked_names (ds : DescSet) (hl : linkedBase ds = true) (m : Msg) (hm : m ∈ ds.msgs) :
     srcIsEnum ds m.full = false ∧ ∀ o ∈ m.oneofs, srcIsEnum ds (m.full ++ "." ++ o.name) = false := by
-  unfold linked at hl
+  unfold linkedBase at hl
   simp only [Bool.and_eq_true, List.all_eq_true] at hl
   have := hl.1.2 m hm
   simp only [Bool.not_eq_eq_eq_not, Bool.not_true] at this
@@ -462,7 +462,7 @@ theorem buildEnumField_spec (ds : DescSet) (reg : Reg) (full : String) (e : Ext)
       exact (hspec to ops' ha).2
 
 theorem referenceMessage_spec (ds : DescSet) (reg : Reg) (full : String) (fl : Bool)
-    (hlk : linked ds = true) (hl : (!needsLookup full || (ds.msg? full).isSome) = true)
+    (hlk : linkedBase ds = true) (hl : (!needsLookup full || (ds.msg? full).isSome) = true)
     (hw : isWkt full = false) :
     (∀ w, referenceMessage ds reg full fl ≠ .panic w) ∧
     ∀ b, referenceMessage ds reg full fl = .ok b → ∀ op ∈ b.ops, opFree ds op := by
@@ -498,7 +498,7 @@ theorem referenceMessage_spec (ds : DescSet) (reg : Reg) (full : String) (fl : B
           exact hk
 
 theorem buildMessageField_spec (ds : DescSet) (reg : Reg) (full : String) (e : Ext)
-    (hlk : linked ds = true) (hl : (!needsLookup full || (ds.msg? full).isSome) = true) :
+    (hlk : linkedBase ds = true) (hl : (!needsLookup full || (ds.msg? full).isSome) = true) :
     (∀ w, buildMessageField ds reg full e ≠ .panic w) ∧
     ∀ b, buildMessageField ds reg full e = .ok b → ∀ op ∈ b.ops, opFree ds op := by
   unfold buildMessageField
@@ -516,7 +516,7 @@ theorem buildMessageField_spec (ds : DescSet) (reg : Reg) (full : String) (e : E
     | none => exact (referenceMessage_spec ds reg full _ hlk hl (wktSchema_none full e ha)).2 b h2
 
 theorem buildSchema_spec (ds : DescSet) (reg : Reg) (kind : PKind) (t : Target) (e : Ext)
-    (key : Option KeySum) (hreg : RegOK ds reg) (hlk : linked ds = true)
+    (key : Option KeySum) (hreg : RegOK ds reg) (hlk : linkedBase ds = true)
     (hl : targetLinked ds kind t = true) :
     (∀ w, buildSchema ds reg kind t e key ≠ .panic w) ∧
     ∀ b, buildSchema ds reg kind t e key = .ok b → ∀ op ∈ b.ops, opFree ds op := by
@@ -589,7 +589,7 @@ theorem propertyPlan_spec (ds : DescSet) (f : FieldD) (hl : fieldLinked ds f = t
         exact hl
 
 theorem buildProperty_spec (ds : DescSet) (reg : Reg) (f : FieldD) (hreg : RegOK ds reg)
-    (hlk : linked ds = true) (hl : fieldLinked ds f = true) :
+    (hlk : linkedBase ds = true) (hl : fieldLinked ds f = true) :
     (∀ w, buildProperty ds reg f ≠ .panic w) ∧
     ∀ prop b, buildProperty ds reg f = .ok (prop, b) → ∀ op ∈ b.ops, opFree ds op := by
   unfold buildProperty
@@ -598,18 +598,16 @@ theorem buildProperty_spec (ds : DescSet) (reg : Reg) (f : FieldD) (hreg : RegOK
   · apply bind_noPanic hnp
     intro a ha
     obtain ⟨kind, t, e, key, mk⟩ := a
-    apply bind_noPanic (buildSchema_spec ds reg kind t e key hreg hlk (hplan _ _ _ _ _ ha)).1
-    intro b _ w
-    split <;> simp
+    exact map_noPanic (buildSchema_spec ds reg kind t e key hreg hlk (hplan _ _ _ _ _ ha)).1
   · intro prop b h
-    obtain ⟨kind, t, e, key, mk, ha, hb', _, _⟩ := buildProperty_ok h
+    obtain ⟨kind, t, e, key, mk, ha, hb', _⟩ := buildProperty_ok h
     exact (buildSchema_spec ds reg kind t e key hreg hlk (hplan _ _ _ _ _ ha)).2 b hb'
 
 /-- the message pushed by a field owns its name after the field's updates -/
 theorem buildProperty_push_owns (ds : DescSet) (reg : Reg) (f : FieldD) (prop : RProp) (b : Built)
     (m : Msg) (h : buildProperty ds reg f = .ok (prop, b)) (hp : b.push = some m) :
     Owns (reg.applyAll b.ops) m.pkg m.split m.full := by
-  obtain ⟨kind, t, e, key, mk, _, hb, _, _⟩ := buildProperty_ok h
+  obtain ⟨kind, t, e, key, mk, _, hb, _⟩ := buildProperty_ok h
   unfold buildSchema at hb
   split at hb
   · split at hb
@@ -659,7 +657,7 @@ theorem FrameOwns.applyAll {reg : Reg} {fr : Frame} (h : FrameOwns reg fr) (ops 
 def Good (ds : DescSet) (st : St) : Prop :=
   RegOK ds st.reg ∧ ∀ fr ∈ st.stack, FrameOK ds fr ∧ FrameOwns st.reg fr
 
-theorem exposeOneofs_spec (ds : DescSet) (m : Msg) (hm : m ∈ ds.msgs) (hlk : linked ds = true)
+theorem exposeOneofs_spec (ds : DescSet) (m : Msg) (hm : m ∈ ds.msgs) (hlk : linkedBase ds = true)
     (os : List OneofD) (hos : ∀ o ∈ os, o ∈ m.oneofs) (reg : Reg) (i : Nat) :
     (∀ w, exposeOneofs m reg i os ≠ .panic w) ∧
     ∀ ex ops, exposeOneofs m reg i os = .ok (ex, ops) →
@@ -712,7 +710,7 @@ theorem exposeOneofs_spec (ds : DescSet) (m : Msg) (hm : m ∈ ds.msgs) (hlk : l
           · cases h
           · cases h
 
-theorem enter_spec (ds : DescSet) (m : Msg) (hm : m ∈ ds.msgs) (hlk : linked ds = true)
+theorem enter_spec (ds : DescSet) (m : Msg) (hm : m ∈ ds.msgs) (hlk : linkedBase ds = true)
     (reg : Reg) (hown : Owns reg m.pkg m.split m.full) :
     (∀ w, enter m reg ≠ .panic w) ∧
     ∀ fr ops, enter m reg = .ok (fr, ops) →
@@ -745,7 +743,7 @@ theorem setsSafe (ds : DescSet) (reg : Reg) (ops : List RegOp)
     exact ⟨p', k', r', src', rfl, hown'.apply _, hs'⟩
 
 theorem finish_spec (ds : DescSet) (reg : Reg) (fr : Frame) (hfr : FrameOK ds fr)
-    (hown : FrameOwns reg fr) (hlk : linked ds = true) :
+    (hown : FrameOwns reg fr) (hlk : linkedBase ds = true) :
     (∀ w, finish fr ≠ .panic w) ∧ ∀ ops, finish fr = .ok ops → opsSafe ds reg ops := by
   obtain ⟨hm, _, hex⟩ := hfr
   obtain ⟨hk, hko⟩ := linked_names ds hlk fr.msg hm
@@ -825,7 +823,7 @@ theorem place_owns (reg : Reg) (fr : Frame) (f : FieldD) (prop : RProp) (h : Fra
     · exact ⟨h1, hmap _⟩
 
 /-- one transition from a good state does not crash and leads to a good state -/
-theorem step_safe (ds : DescSet) (hl : linked ds = true) (st : St) (hg : Good ds st) :
+theorem step_safe (ds : DescSet) (hl : linkedBase ds = true) (st : St) (hg : Good ds st) :
     (∀ w, step ds st ≠ .crash w) ∧ (∀ st', step ds st = .cont st' → Good ds st') ∧
     (∀ reg, step ds st = .done reg → RegOK ds reg) := by
   obtain ⟨hreg, hframes⟩ := hg
@@ -857,7 +855,7 @@ theorem step_safe (ds : DescSet) (hl : linked ds = true) (st : St) (hg : Good ds
       have hf : f ∈ fr.msg.fields := hfr.1.2.1 f (by simp [hrest])
       have hfl : fieldLinked ds f = true := by
         have hl' := hl
-        unfold linked at hl'
+        unfold linkedBase at hl'
         simp only [Bool.and_eq_true, List.all_eq_true] at hl'
         exact hl'.1.1.1.1.1 fr.msg hfr.1.1 f hf
       obtain ⟨hnp, hops⟩ := buildProperty_spec ds st.reg f hreg hl hfl
@@ -941,7 +939,7 @@ theorem run_cont (ds : DescSet) (st st' : St) (h : step ds st = .cont st') :
   rw [run.eq_1]; split <;> simp_all
 
 /-- from a good state the machine never panics, and a result is a sound registry -/
-theorem run_safe (ds : DescSet) (hl : linked ds = true) (st : St) :
+theorem run_safe (ds : DescSet) (hl : linkedBase ds = true) (st : St) :
     Good ds st → (∀ w, run ds st ≠ .panic w) ∧ (∀ reg, run ds st = .ok reg → RegOK ds reg) := by
   induction st using run.induct ds with
   | case1 x reg h =>
@@ -962,7 +960,7 @@ theorem run_safe (ds : DescSet) (hl : linked ds = true) (st : St) :
     rw [run_cont ds x st' h]
     exact ih ((step_safe ds hl x hg).2.1 st' h)
 
-theorem buildMessage_safe (ds : DescSet) (hl : linked ds = true) (reg : Reg) (m : Msg)
+theorem buildMessage_safe (ds : DescSet) (hl : linkedBase ds = true) (reg : Reg) (m : Msg)
     (hm : m ∈ ds.msgs) (hreg : RegOK ds reg) (hnone : reg.find m.pkg m.split = none) :
     (∀ w, buildMessage ds reg m ≠ .panic w) ∧ (∀ reg', buildMessage ds reg m = .ok reg' → RegOK ds reg') := by
   unfold buildMessage
@@ -984,7 +982,7 @@ theorem buildMessage_safe (ds : DescSet) (hl : linked ds = true) (reg : Reg) (m 
   · rename_i w hen
     exact absurd hen (hnp w)
 
-theorem messageSchema_safe (ds : DescSet) (hl : linked ds = true) (reg : Reg) (m : Msg)
+theorem messageSchema_safe (ds : DescSet) (hl : linkedBase ds = true) (reg : Reg) (m : Msg)
     (hm : m ∈ ds.msgs) (hreg : RegOK ds reg) :
     (∀ w, messageSchema ds reg m ≠ .panic w) ∧ (∀ reg', messageSchema ds reg m = .ok reg' → RegOK ds reg') := by
   unfold messageSchema
@@ -998,7 +996,7 @@ theorem messageSchema_safe (ds : DescSet) (hl : linked ds = true) (reg : Reg) (m
   · rename_i hnone
     exact buildMessage_safe ds hl reg m hm hreg hnone
 
-theorem messagesLoop_safe (ds : DescSet) (hl : linked ds = true)
+theorem messagesLoop_safe (ds : DescSet) (hl : linkedBase ds = true)
     (names : List String) (hn : ∀ full ∈ names, (ds.msg? full).isSome = true) (reg : Reg)
     (hreg : RegOK ds reg) :
     (∀ w, messagesLoop ds reg names ≠ .panic w) ∧
@@ -1056,36 +1054,6 @@ theorem enumsLoop_safe (ds : DescSet) (names : List String)
         · exact ⟨by simp, by intro _ h; cases h⟩
         · rename_i w hb
           exact absurd hb (buildEnum_noPanic en hv w)
-
-theorem schemaSetFromFiles_safe (ds : DescSet) (hl : linked ds = true) :
-    (∀ w, schemaSetFromFiles ds ≠ .panic w) ∧
-    (∀ reg, schemaSetFromFiles ds = .ok reg → RegOK ds reg) := by
-  have hl' := hl
-  unfold linked at hl'
-  simp only [Bool.and_eq_true, List.all_eq_true] at hl'
-  have htop := hl'.1.1.1.1.2
-  have htopE := hl'.1.1.2
-  obtain ⟨hnp, hok⟩ := messagesLoop_safe ds hl ds.topMsgs htop [] (RegOK.nil ds)
-  unfold schemaSetFromFiles
-  split
-  · rename_i reg hm
-    exact enumsLoop_safe ds ds.topEnums htopE reg (hok reg hm)
-  · exact ⟨by simp, by intro _ h; cases h⟩
-  · rename_i w hm
-    exact absurd hm (hnp w)
-
-/-- `SchemaCache.Schema` keeps the cache sound and does not panic -/
-theorem cacheSchema_safe (ds : DescSet) (hl : linked ds = true) (reg : Reg) (m : Msg)
-    (hm : m ∈ ds.msgs) (hreg : RegOK ds reg) :
-    (∀ w, (cacheSchema ds reg m).1 ≠ .panic w) ∧ RegOK ds (cacheSchema ds reg m).2 := by
-  obtain ⟨hnp, hok⟩ := messageSchema_safe ds hl reg m hm hreg
-  unfold cacheSchema
-  split
-  · rename_i reg' h
-    exact ⟨by simp, hok reg' h⟩
-  · exact ⟨by simp, hreg⟩
-  · rename_i w h
-    exact absurd h (hnp w)
 
 /-! ## a fuel-bounded evaluator, for `decide`-able examples
 
@@ -1193,22 +1161,5 @@ theorem messagesLoopN_sound (ds : DescSet) (n : Nat) (names : List String) (reg 
         rw [messageSchemaN_sound ds n reg m _ hs]
         cases h; rfl
       · cases h
-
-def schemaSetFromFilesN (ds : DescSet) (n : Nat) : Option (Outcome Reg) :=
-  match messagesLoopN ds n [] ds.topMsgs with
-  | some (.ok reg) => some (enumsLoop ds reg ds.topEnums)
-  | some (.err x) => some (.err x)
-  | some (.panic w) => some (.panic w)
-  | none => none
-
-theorem schemaSetFromFilesN_sound (ds : DescSet) (n : Nat) (r : Outcome Reg)
-    (h : schemaSetFromFilesN ds n = some r) : schemaSetFromFiles ds = r := by
-  unfold schemaSetFromFilesN at h
-  unfold schemaSetFromFiles
-  split at h
-  · rename_i reg hs; rw [messagesLoopN_sound ds n _ _ _ hs]; cases h; rfl
-  · rename_i x hs; rw [messagesLoopN_sound ds n _ _ _ hs]; cases h; rfl
-  · rename_i w hs; rw [messagesLoopN_sound ds n _ _ _ hs]; cases h; rfl
-  · cases h
 
 end J5V.Schema.Reader
